@@ -11,6 +11,15 @@
 //!     verdict: every `right` password opens <isoenc>: Ok, all objects and the trailer equal to <doc>'s, the Encrypt
 //!              entry and the encryption dictionary gone; every `wrong` password is rejected.
 //!
+//!     An optional last element (isoref (o xO) (u xU) (auth (xPW a6 a7) ..)) (revisions 2-4) is the extracted specification's
+//!     answer to the runner line `isoref` about <implenc>, the file LOPDF wrote: O by Algorithm 3 for the passwords and key
+//!     length of <ver>, U by Algorithm 4 / 5 (for that O, P, the file identifier, lopdf's 16 arbitrary bytes), and whether
+//!     Algorithm 6 / 7 of the standard authenticate each password against lopdf's dictionary.  Verdict: lopdf's O and U
+//!     entries EQUAL the standard's, and the standard authenticates exactly the right passwords in the right role: as user
+//!     the user password; as owner the owner password -- which is the user password when there is no owner password
+//!     (Algorithm 3 a) and only then; nothing else (the empty string included).  Passwords are compared as the standard
+//!     uses them: padded / truncated to 32 bytes.
+//!
 //! Passwords.  The specification's algorithms are defined on the password bytes AFTER preparation (PDFDocEncoding for
 //! revisions 2-4, SASLprep + UTF-8 for revisions 5-6); lopdf's API takes the Unicode text and prepares it itself.  So:
 //!   * in a `case` line <ver> and the `pws` hold the PREPARED bytes (what the specification side reads); an optional
@@ -183,6 +192,77 @@ fn decrypt_with(d: &mut Document, pw: &[u8]) -> Result<(), lopdf::Error> {
     }
 }
 
+/// ISO 32000-1 7.6.3.3, Algorithm 2 step (a): the padding string
+const PADDING: [u8; 32] = [
+    0x28, 0xBF, 0x4E, 0x5E, 0x4E, 0x75, 0x8A, 0x41, 0x64, 0x00, 0x4E, 0x56, 0xFF, 0xFA, 0x01, 0x08, 0x2E, 0x2E, 0x00, 0xB6, 0xD0, 0x68,
+    0x3E, 0x80, 0x2F, 0x0C, 0xA9, 0xFE, 0x64, 0x53, 0x69, 0x7A,
+];
+
+/// "pad or truncate the password string to exactly 32 bytes"
+fn pad32(pw: &[u8]) -> Vec<u8> {
+    pw.iter().chain(PADDING.iter()).take(32).copied().collect()
+}
+
+fn hex(b: &[u8]) -> String {
+    b.iter().map(|c| format!("{:02x}", c)).collect()
+}
+
+/// the encryption dictionary of a document: the trailer's Encrypt entry, a dictionary or a reference to one
+fn encrypt_dict(d: &Document) -> Option<&Dictionary> {
+    match d.trailer.get(b"Encrypt").ok()? {
+        Object::Reference(id) => match d.objects.get(id)? {
+            Object::Dictionary(e) => Some(e),
+            _ => None,
+        },
+        Object::Dictionary(e) => Some(e),
+        _ => None,
+    }
+}
+
+/// the direct verdict on the file lopdf wrote (revisions 2-4), against the extracted specification's reference values
+fn isoref_inner(v: &Ver, implenc: &Document, ir: &Sx) -> Option<Option<String>> {
+    let field = |name: &str| ir.args().iter().find(|y| y.tag() == Some(name));
+    let (o_ref, u_ref) = (field("o")?.args().first()?.as_bytes()?, field("u")?.args().first()?.as_bytes()?);
+    let who = format!("(owner password x{}, user password x{}, {})", hex(&v.owner), hex(&v.user), match v.tag.as_str() {
+        "v1" => "revision 2, 40 bit".to_string(),
+        "v2" => format!("revision 3, {} bit", v.key_length),
+        _ => "revision 4, 128 bit".to_string(),
+    });
+    let Some(e) = encrypt_dict(implenc) else { return Some(Some(format!("FAIL the document lopdf encrypted has no encryption dictionary {}", who))) };
+    let entry = |k: &[u8]| match e.get(k) { Ok(Object::String(s, _)) => s.clone(), _ => vec![] };
+    let (o, u) = (entry(b"O"), entry(b"U"));
+    if o != o_ref {
+        return Some(Some(format!("FAIL the O entry lopdf wrote is not the O value of the standard's Algorithm 3 {}: lopdf x{}, the standard x{}", who, hex(&o), hex(&o_ref))));
+    }
+    if u != u_ref {
+        return Some(Some(format!("FAIL the U entry lopdf wrote is not the U value of the standard's Algorithm {} {}: lopdf x{}, the standard x{}",
+                            if v.tag == "v1" { "4" } else { "5" }, who, hex(&u), hex(&u_ref))));
+    }
+    let pu = pad32(&v.user);
+    let po = if v.owner.is_empty() { None } else { Some(pad32(&v.owner)) };
+    for y in field("auth")?.args() {
+        let l = y.as_list()?;
+        let (pw, a6, a7) = (l.first()?.as_bytes()?, l.get(1)?.as_bool()?, l.get(2)?.as_bool()?);
+        let p = pad32(&pw);
+        let is_user = p == pu;
+        // "If there is no owner password, use the user password instead" (Algorithm 3 a)
+        let is_owner = match &po { Some(po) => p == *po, None => is_user };
+        if a6 != is_user {
+            return Some(Some(format!("FAIL the standard's Algorithm 6 {} x{} as user password of the file lopdf wrote {}",
+                                if a6 { "accepts the wrong password" } else { "refuses the user password" }, hex(&pw), who)));
+        }
+        if a7 != is_owner {
+            return Some(Some(format!("FAIL the standard's Algorithm 7 {} x{} as owner password of the file lopdf wrote {}",
+                                if a7 { "accepts" } else { "refuses" }, hex(&pw), who)));
+        }
+    }
+    Some(None)
+}
+
+fn isoref_verdict(v: &Ver, implenc: &Document, ir: &Sx) -> Option<String> {
+    isoref_inner(v, implenc, ir).unwrap_or_else(|| Some("FAIL machinery: the (isoref ..) element of the case cannot be read".into()))
+}
+
 fn sorted_dict_sx(d: &Dictionary) -> Sx {
     let mut es: Vec<(&Vec<u8>, &Object)> = d.iter().collect();
     es.sort_by(|a, b| a.0.cmp(b.0));
@@ -346,6 +426,16 @@ fn main() {
                 Sx::tagged("reenc", vec![if flag("noreenc") { Sx::id("skipped") } else { Sx::id("1") }]),
             ],
         );
+        // the other direction, judged directly: the deterministic entries of the dictionary lopdf wrote are the standard's
+        if let Some(ir) = a.iter().skip(6).find(|y| y.tag() == Some("isoref")) {
+            if matches!(v.tag.as_str(), "v1" | "v2" | "v4") && ir.args().iter().any(|y| y.tag() == Some("o")) {
+                let Some(implenc) = doc_of_sx(&a[3]) else { return bad };
+                match isoref_verdict(&v, &implenc, ir) {
+                    Some(f) if verdict == "ok" => verdict = f,
+                    _ => {}
+                }
+            }
+        }
         if flag("noverdict") {
             verdict = "skip".to_string();
         }
